@@ -30,6 +30,15 @@ def transcript_programs():
                     progs.append(("prog", "exp", "é3", (a, b, c), multi))
     cond = ("if", ("cmp", ("id", "seg"), "in", ("tup", (("lit", "x"), ("lit", 2)))), multi, ("else", ("ret", (("E", "1"), ("F", "1")))))
     progs.append(("prog", "exp", "k", ("uid", "seg"), cond))
+    # anything that tempts an implementation into iterating a set / dict keyed by strings: repeated and many string labels,
+    # string members of a tuple literal, fields that differ by case only
+    progs.append(("prog", "exp", None, ("uid",), ("ret", (("A", "1"), ("B", "2"), ("A", "1"), ("C", "3"), ("B", "1")))))
+    progs.append(("prog", "exp", "d", ("uid",), ("ret", (("new", "10"), ("old", "80"), ("new", "10")))))
+    progs.append(("prog", "exp", None, ("uid",), ("ret", tuple((f"label-{i}", "1") for i in range(12)))))
+    progs.append(("prog", "exp", None, ("uid",), ("ret", (("x", "1"), ("x", "1"), ("y", "1"), ("x", "1")))))
+    progs.append(("prog", "exp", "k", ("uid", "seg"), ("if", ("cmp", ("id", "seg"), "in", ("tup", tuple(("lit", c) for c in "xyzwvu"))), ("ret", (("in", "1"), ("IN", "1"))),
+                                                       ("else", ("ret", (("out", "1"), ("out", "1"), ("OUT", "2")))))))
+    progs.append(("prog", "exp", "c", ("userId", "userid", "USERID"), multi))
     return [(rp.render(p), p) for p in progs]
 
 
